@@ -373,6 +373,7 @@ func TestProp_HTML(t *testing.T) {
 				k.names = [][]byte{l.Text()}
 				if tt == html.EndTagToken {
 					r.look = true
+					k.names = [][]byte{tagNameOf(l.Text())} // only the name of an end tag is case-folded, not what follows it
 				}
 			case html.AttributeToken:
 				k.subs = [][]byte{l.AttrKey(), l.AttrVal()}
@@ -393,6 +394,16 @@ func TestProp_HTML(t *testing.T) {
 		}
 		ev.Case("html", string(src), r.ntok >= 3 && r.look, "ctor="+ctor, fmt.Sprintf("tmpl=%s", d[0]))
 	})
+}
+
+// tagNameOf: the part of an end tag's text up to the first whitespace or slash
+func tagNameOf(text []byte) []byte {
+	for i, c := range text {
+		if c == ' ' || c == '\t' || c == '\n' || c == '\r' || c == '\f' || c == '/' {
+			return text[:i]
+		}
+	}
+	return text
 }
 
 // ---------- XML
